@@ -61,4 +61,34 @@ let () = iter_lines (fun line ->
   | ["dct"; n; d] -> Printf.printf "dct %s\n" (dec_of_z (dtp_dctsize (zi (int_of_string n)) (zi (int_of_string d))))
   | ["gs"; a; b; c; d; e; f] ->
       Printf.printf "gs %s\n" (dec_of_z (getSubsamp3 (zi (int_of_string a)) (zi (int_of_string b)) (zi (int_of_string c)) (zi (int_of_string d)) (zi (int_of_string e)) (zi (int_of_string f))))
+  | ["fp"; fn; snull; st0; st1; st2; w; h; sv; sfi] ->
+      (* footprint of the bytes written to each plane: count, lowest, highest offset and a hash of the sorted distinct offsets *)
+      let ios = int_of_string in
+      let strides = zi (if ios snull = 1 then 0 else 1) in
+      let st = [| zi (ios st0); zi (ios st1); zi (ios st2) |] in
+      let w = zi (ios w) and h = zi (ios h) and s = zi (ios sv) in
+      let (num, denom) = List.nth sf_tbl (ios sfi) in
+      let nc = if ios sv = 3 then 1 else 3 in
+      let b = Buffer.create 256 in
+      Buffer.add_string b ("fp " ^ fn);
+      for i = 0 to nc - 1 do
+        let a = if fn = "enc" then enc_access strides st.(i) (zi i) w h s else dtp_access strides st.(i) (zi i) w h s num denom in
+        (match a with
+         | None -> Buffer.add_string b " | UB"
+         | Some l ->
+             let l = List.sort_uniq compare (List.map int_of_z l) in
+             let hsh = List.fold_left (fun acc o -> (acc * 1000003 + (o + (1 lsl 40))) mod 2147483629) 7 l in
+             (match l with
+              | [] -> Buffer.add_string b " | 0 0 0 7"
+              | lo :: _ -> Buffer.add_string b (Printf.sprintf " | %d %d %d %d" (List.length l) lo (List.nth l (List.length l - 1)) hsh)))
+      done;
+      if fn = "dtp" then begin
+        Buffer.add_string b " | lj";
+        for i = 0 to nc - 1 do
+          Buffer.add_string b (Printf.sprintf " %s %s" (dec_of_z (lj_wib (zi i) w s)) (dec_of_z (lj_hib (zi i) h s)))
+        done;
+        Buffer.add_string b (Printf.sprintf " %s %s %s" (dec_of_z (lj_out w num denom)) (dec_of_z (lj_out h num denom))
+          (if dtp_usetmpbuf w h s num denom then "tmp" else "direct"))
+      end;
+      print_endline (Buffer.contents b)
   | _ -> print_endline "?")
